@@ -25,7 +25,7 @@ import (
 	"verif/lib/xplore"
 )
 
-const nTx = 6
+const nTx = 10
 
 var (
 	P       *chainlab.Prelude
@@ -105,7 +105,14 @@ func world() {
 	// t5: the unconfirmed parent comes first, the confirmed output second; it competes with t2 for t1.out0
 	t5 := labnet.Pay([]labnet.Out{{Tx: t1, Idx: 0}, u2}, labnet.Prog(0x66))
 	t6 := labnet.Pay([]labnet.Out{u1}, labnet.Prog(0x67))
-	txs = []*types.Tx{t1, t2, t3, t4, t5, t6}
+	// triangles: a child spends an output of the root t1 AND the output of the root's other child.
+	// t7/t8: child hangs under t1.out0, the middle transaction t3 under t1.out1 (both input orders);
+	// t9/t10: the mirror image, child under t1.out1, middle t2 under t1.out0.
+	t7 := labnet.Pay([]labnet.Out{{Tx: t1, Idx: 0}, {Tx: t3, Idx: 0}}, labnet.Prog(0x68))
+	t8 := labnet.Pay([]labnet.Out{{Tx: t3, Idx: 0}, {Tx: t1, Idx: 0}}, labnet.Prog(0x69))
+	t9 := labnet.Pay([]labnet.Out{{Tx: t1, Idx: 1}, {Tx: t2, Idx: 0}}, labnet.Prog(0x6b))
+	t10 := labnet.Pay([]labnet.Out{{Tx: t2, Idx: 0}, {Tx: t1, Idx: 1}}, labnet.Prog(0x6c))
+	txs = []*types.Tx{t1, t2, t3, t4, t5, t6, t7, t8, t9, t10}
 	txIdx = map[bc.Hash]int{}
 	outName = map[bc.Hash]string{u1.ID(): "u1", u2.ID(): "u2"}
 	outOwner = map[bc.Hash]int{}
@@ -134,6 +141,10 @@ func world() {
 	in(3, labnet.Out{Tx: t2, Idx: 0}, labnet.Out{Tx: t3, Idx: 0})
 	in(4, labnet.Out{Tx: t1, Idx: 0}, u2)
 	in(5, u1)
+	in(6, labnet.Out{Tx: t1, Idx: 0}, labnet.Out{Tx: t3, Idx: 0})
+	in(7, labnet.Out{Tx: t3, Idx: 0}, labnet.Out{Tx: t1, Idx: 0})
+	in(8, labnet.Out{Tx: t1, Idx: 1}, labnet.Out{Tx: t2, Idx: 0})
+	in(9, labnet.Out{Tx: t2, Idx: 0}, labnet.Out{Tx: t1, Idx: 1})
 }
 
 func tn(i int) string { return fmt.Sprintf("t%d", i+1) }
@@ -481,6 +492,8 @@ type extra struct {
 	Mode string `json:"mode"` // "pool": TxPool.ProcessTransaction; "chain": Chain.ValidateTx
 	// RemoveOrphans also enables RemoveTransaction(ti) while ti is an orphan (must be ignored by the pool)
 	RemoveOrphans bool `json:"remove_orphans"`
+	// Txs is the sub-alphabet of this search (indices into txs)
+	Txs []int `json:"txs"`
 }
 
 func runHist(h []int, raw json.RawMessage) (out xplore.Out) {
@@ -640,12 +653,12 @@ func runHist(h []int, raw json.RawMessage) (out xplore.Out) {
 		return
 	}
 	// successors, from the model (= implementation, the state is violation-free)
-	for i := 0; i < nTx; i++ {
+	for _, i := range ex.Txs {
 		if ex.Mode == "chain" || !m.pool[i] {
 			out.Enabled = append(out.Enabled, opSubmit+i)
 		}
 	}
-	for i := 0; i < nTx; i++ {
+	for _, i := range ex.Txs {
 		if m.pool[i] || (ex.RemoveOrphans && m.isOrph(i)) {
 			out.Enabled = append(out.Enabled, opRemove+i)
 		}
@@ -666,30 +679,60 @@ func main() {
 		xplore.Worker(spec)
 	}
 	run := ev.Start("C22", "model_checking")
-	depthPool := run.Pick(6, 12)
-	depthChain := run.Pick(3, 12)
-	spec.MaxDepth = depthPool
-	spec.Extra = extra{Mode: "pool", RemoveOrphans: run.Thorough()}
-	st := xplore.BFS(run, spec)
-	spec.MaxDepth = depthChain
-	spec.Extra = extra{Mode: "chain", RemoveOrphans: run.Thorough()}
-	st2 := xplore.BFS(run, spec)
-	// written-out cases: the deepest representative histories of both searches
-	for _, reps := range [][][]int{st.Reps, st2.Reps} {
-		for k := len(reps) - 1; k >= 0 && k >= len(reps)-5; k-- {
-			run.Sample(describe(reps[k]))
+	type search struct {
+		name  string
+		txs   []int
+		mode  string
+		depth int
+	}
+	base := []int{0, 1, 2, 3, 4, 5}
+	var searches []search
+	if !run.Thorough() {
+		searches = []search{
+			{"dag6/ProcessTransaction", base, "pool", 6},
+			{"dag6/ValidateTx", base, "chain", 3},
+			// both input orders of one triangle together: child(ren) and middle first (orphans), root last, is a
+			// history of depth 3 / 4
+			{"triangles t1,t3,t7,t8/ProcessTransaction", []int{0, 2, 6, 7}, "pool", 6},
+			{"triangles t1,t2,t9,t10/ProcessTransaction", []int{0, 1, 8, 9}, "pool", 6},
+			{"triangles t1,t3,t7,t8/ValidateTx", []int{0, 2, 6, 7}, "chain", 4},
+			{"triangles t1,t2,t9,t10/ValidateTx", []int{0, 1, 8, 9}, "chain", 4},
+		}
+	} else {
+		searches = []search{
+			{"dag6/ProcessTransaction", base, "pool", 12},
+			{"dag6/ValidateTx", base, "chain", 12},
+			{"triangles t1,t3,t7,t8/ProcessTransaction", []int{0, 2, 6, 7}, "pool", 12},
+			{"triangles t1,t3,t7,t8/ValidateTx", []int{0, 2, 6, 7}, "chain", 12},
+			{"triangles t1,t2,t9,t10/ProcessTransaction", []int{0, 1, 8, 9}, "pool", 12},
+			{"triangles t1,t2,t9,t10/ValidateTx", []int{0, 1, 8, 9}, "chain", 12},
+			{"all triangles t1,t2,t3,t7..t10/ProcessTransaction", []int{0, 1, 2, 6, 7, 8, 9}, "pool", 7},
+			{"all ten/ProcessTransaction", []int{0, 1, 2, 3, 4, 5, 6, 7, 8, 9}, "pool", 5},
 		}
 	}
-	run.Set("states", st.States+st2.States)
-	run.Set("transitions", st.Transitions+st2.Transitions)
-	run.Set("traces_validated_against_impl", st.Checks+st2.Checks)
-	run.Set("states_via_ProcessTransaction", st.States)
-	run.Set("transitions_via_ProcessTransaction", st.Transitions)
-	run.Set("states_via_ValidateTx", st2.States)
-	run.Set("transitions_via_ValidateTx", st2.Transitions)
-	run.Set("depth_via_ProcessTransaction", depthPool)
-	run.Set("depth_via_ValidateTx", depthChain)
-	run.Set("max_depth", st.MaxDepth)
+	var states, transitions, checks, maxDepth int
+	per := map[string]interface{}{}
+	for _, sr := range searches {
+		spec.MaxDepth = sr.depth
+		spec.Extra = extra{Mode: sr.mode, RemoveOrphans: run.Thorough(), Txs: sr.txs}
+		st := xplore.BFS(run, spec)
+		states += st.States
+		transitions += st.Transitions
+		checks += st.Checks
+		if st.MaxDepth > maxDepth {
+			maxDepth = st.MaxDepth
+		}
+		per[sr.name] = map[string]int{"depth_bound": sr.depth, "deepest_new_state": st.MaxDepth, "states": st.States, "transitions": st.Transitions}
+		// written-out cases: the deepest representative histories
+		for k := len(st.Reps) - 1; k >= 0 && k >= len(st.Reps)-2; k-- {
+			run.Sample(describe(st.Reps[k]))
+		}
+	}
+	run.Set("states", states)
+	run.Set("transitions", transitions)
+	run.Set("traces_validated_against_impl", checks)
+	run.Set("searches", per)
+	run.Set("max_depth", maxDepth)
 	run.Set("remove_of_orphaned_tx_enabled", run.Thorough())
 	var ops []string
 	for o := 0; o < nOps; o++ {
@@ -701,7 +744,7 @@ func main() {
 		dag[tn(i)] = map[string]interface{}{"spends": inNames(i), "spendable_outputs": len(outputs[i]), "retirement_outputs": len(retired[i])}
 	}
 	run.Set("dag", dag)
-	run.Set("rule", "breadth-first search over all operation sequences up to the depth, each replayed on a fresh node started from the 16-block prelude image; states merged on a digest of the pool's four private maps plus the age order of the orphans; after the last operation of every history the invariants of the statement are evaluated on the private maps and pool / orphan sets / return value are compared with a reference model computed from the operations; violating states are reported once (first broken invariant) and not expanded")
+	run.Set("rule", "one breadth-first search per listed sub-alphabet of the ten transactions over all operation sequences up to the depth bound, each history replayed on a fresh node started from the 16-block prelude image; states merged on a digest of the pool's four private maps plus the age order of the orphans; after the last operation of every history the invariants of the statement are evaluated on the private maps and pool / orphan sets / return value are compared with a reference model computed from the operations; violating states are reported once (first broken invariant) and not expanded")
 	run.Assume("submission through TxPool.ProcessTransaction is only made for transactions that are not pooled (its only production caller, Chain.ValidateTx, answers for pooled transactions without calling it); the second search submits through Chain.ValidateTx including re-submission of pooled transactions")
 	run.Assume("no block arrives during a history: u1 and u2 stay confirmed and unspent (confirmation / reorganisation effects on the pool are C23); the pool itself does not detect double spends (t1 and t6 may both be pooled)")
 	run.Assume("the orphan clock is the wall clock inside addOrphan; expiry times are read back from the pool and the ExpireOrphan argument is chosen relative to them (before all, just after the oldest, after all)")
